@@ -59,10 +59,83 @@ Fixpoint run_labels (g : gates) (cs : list Z) (s : st) (stat : list Z) : list sx
       L [L (map A stat'); of_bool (is_serving s'); of_bool (is_listening s')] :: run_labels g cs' s' stat'
   end.
 
+(* ---- standalone (threaded) servers: BaseStandaloneNetworkServerImpl around a FRESH asynchronous server per
+   serve_forever (server_factory), observed at quiescence:
+     serve_forever : ServerClosedError if __is_closed, ServerAlreadyRunning if the threading event is cleared, else a
+                     new asynchronous server runs; when its serve_forever ends the wrapper closes it
+                     (`async with server`), drops the portal and sets the threading event
+     shutdown      : portal.run_coroutine(server.shutdown) if a portal exists, then waits for the threading event
+     server_close  : under the close lock, portal.run_coroutine(server.server_close) if a portal exists; sets __is_closed
+   kinds 2 (TCP) and 3 (UDP). ---- *)
+Record sst := { tclosed : bool; arun : option st; cur : nat; sstat : list Z }.
+
+Definition no_gates : gates := {| g_factory := false; g_init := false; g_client := false |}.
+
+Fixpoint serve_outcome (os : list obs) : Z :=
+  match os with
+  | [] => 1
+  | Ret O o :: _ => out_code o
+  | _ :: os' => serve_outcome os'
+  end.
+
+(* the asynchronous run has ended (its event is set): the serving thread leaves serve_forever *)
+Definition wrap_up (x : sst) (a : st) (oa : list obs) : sst :=
+  if ev a
+  then {| tclosed := tclosed x; arun := None; cur := cur x; sstat := set_nth (cur x) (serve_outcome oa) (sstat x) |}
+  else {| tclosed := tclosed x; arun := Some a; cur := cur x; sstat := sstat x |}.
+
+Definition async_do (x : sst) (l : label) : sst :=
+  match arun x with
+  | None => x
+  | Some a =>
+      let '(a1, o1) := match step a l with Some r => r | None => (a, []) end in
+      let '(a2, o2) := settle FUEL no_gates a1 in
+      wrap_up x a2 (o1 ++ o2)
+  end.
+
+Definition push (x : sst) (v : Z) : sst :=
+  {| tclosed := tclosed x; arun := arun x; cur := cur x; sstat := sstat x ++ [v] |}.
+Definition set_last (x : sst) (v : Z) : sst :=
+  {| tclosed := tclosed x; arun := arun x; cur := cur x; sstat := set_nth (pred (length (sstat x))) v (sstat x) |}.
+
+Definition sdo_label (c : Z) (x : sst) : sst :=
+  match c with
+  | 0 =>
+      let idx := length (sstat x) in
+      let x := push x 0 in
+      if tclosed x then set_last x 3
+      else match arun x with
+           | Some _ => set_last x 2
+           | None =>
+               let x := {| tclosed := tclosed x; arun := Some init; cur := idx; sstat := sstat x |} in
+               async_do x LCallServe
+           end
+  | 1 => push (async_do x LCallShutdown) 1
+  | 2 => let x := push (async_do x LCallClose) 1 in
+         {| tclosed := true; arun := arun x; cur := cur x; sstat := sstat x |}
+  | 3 => async_do x LConnect
+  | 4 => async_do x LDisconnect
+  | 9 => async_do x LUdpQueue
+  | _ => x
+  end.
+
+Fixpoint srun_labels (cs : list Z) (x : sst) : list sx :=
+  match cs with
+  | [] => []
+  | c :: cs' =>
+      let x' := sdo_label c x in
+      let sv := match arun x' with Some a => is_serving a | None => false end in
+      let ls := match arun x' with Some a => is_listening a | None => false end in
+      L [L (map A (sstat x')); of_bool sv; of_bool ls] :: srun_labels cs' x'
+  end.
+
 Definition run (x : sx) : sx :=
   match x with
-  | L (A _ :: L [A gf; A gi; A gc] :: L cs :: _) =>
+  | L (A k :: L [A gf; A gi; A gc] :: L cs :: _) =>
       do cs <- map_opt as_Z cs;
+      if Z.leb 2 k
+      then L (srun_labels cs {| tclosed := false; arun := None; cur := O; sstat := [] |})
+      else
       L (run_labels {| g_factory := negb (Z.eqb gf 0); g_init := negb (Z.eqb gi 0); g_client := negb (Z.eqb gc 0) |}
                     cs init [])
   | _ => bad_input
